@@ -14,7 +14,7 @@ META = dict(
     decides='boundedness of retries (at most one per one-shot flag) for every command, for all failure sequences',
     undecided='exit status values; should_retry classification itself',
     trusted_base=['rustc MIR construction + callee resolution', 'natural-loop computation over MIR CFG'],
-    rules=['K9 one-shot guarded back edges', 'call-graph closure of run call sites'],
+    rules=['K9 one-shot guarded back edges', 'call-graph closure of run call sites', 'K9 no recursion among the bodies that start a run'],
 )
 
 RUN = ['payload::validation::ValidationReport::process', 'rta::ValidationReport::process']
@@ -24,7 +24,7 @@ def rule(ctx):
     facts = ctx.facts
     # transitive closure of "contains a run call"
     work = [(s, 0) for p in RUN for s in facts.callers(p)]
-    ctx.floor('K9', 'direct call sites of ValidationReport::process', len(work), 4)
+    ctx.floor('K9', 'direct call sites of ValidationReport::process', len(work), 2)
     seen_bodies = set()
     n_loop = 0
     n_straight = 0
@@ -50,7 +50,30 @@ def rule(ctx):
             continue
         for s in facts.callers(b.nid):
             work.append((s, depth + 1))
-    ctx.floor('K9', 'run call sites inside loops', n_loop, 2)
+    ctx.floor('K9', 'run call sites inside loops', n_loop, 1)
+    # re-running by recursion: a body on the run path must not (transitively) call itself - nothing bounds the depth
+    on_path = set(x.split('::{closure')[0] for x in seen_bodies)
+    edges = {}
+    for nid in on_path:
+        for s in facts.callers(nid):
+            src = s.body.nid.split('::{closure')[0]
+            if src in on_path:
+                edges.setdefault(src, set()).add(nid)
+    for start in sorted(on_path):
+        stack, seen = list(edges.get(start, ())), set()
+        cyc = False
+        while stack:
+            x = stack.pop()
+            if x == start:
+                cyc = True
+                break
+            if x in seen:
+                continue
+            seen.add(x)
+            stack += list(edges.get(x, ()))
+        ctx.check(not cyc, 'K9', 'no-recursive-rerun:%s' % start, '%s does not re-enter itself' % start,
+                  '%s, which (transitively) starts a validation run, calls itself again: a run that keeps failing is restarted without '
+                  'any bound (no one-shot flag can limit a recursion)' % start)
     ctx.extra['run_sites_in_loops'] = n_loop
     ctx.extra['run_sites_straight_line'] = n_straight
 
